@@ -44,6 +44,11 @@ def random_cases(rng, count, big):
             ents.append("%d:%d" % (rank, 1 if rng.below(10) < accp else 0))
         capk = rng.below(8)
         cap = [0, max(0, n - 1), n, (1 << 64) - 1, n // 2, max(0, n - 2), 1, rng.below(n + 2)][capk]
+        if i < big and n > 1100:
+            # far over capacity: the number of evictions is n - cap whatever its size
+            deep = [0, 1, n - 1025, n - 1026, n - 1024, n // 3, n - 1025 - rng.below(n - 1024), rng.below(n - 1024)]
+            if i % 2 == 0:
+                cap = deep[(i // 2) % len(deep)]
         lines.append("%d %s" % (cap, ",".join(ents) if ents else "-"))
     return lines
 
@@ -65,7 +70,7 @@ def run(ctx):
     s1, m1, samples = parse_summary(out)
     # random part
     rng = C.SplitMix(ctx.seed * 1000003 + 8)
-    cases = random_cases(rng, 400 if ctx.quick() else 6000, 8 if ctx.quick() else 60)
+    cases = random_cases(rng, 400 if ctx.quick() else 6000, 16 if ctx.quick() else 64)
     inp = "\n".join(cases) + "\n"
     p1 = subprocess.run([C.KHARNESS_REL, "plan-stdin"], input=inp, stdout=subprocess.PIPE, text=True, env=C.ENV)
     p2 = subprocess.run([C.KMODEL, "plan"], input=p1.stdout, stdout=subprocess.PIPE, text=True)
